@@ -27,6 +27,11 @@ Decided:
               closure, or in a private helper the value passes through). A count derived from the head positions
               (write_head - checkpoint_head) is 0 after the ring wrapped with records pending, which switches off both
               append guards: the next append overwrites acknowledged records.
+  GUARD-C05j  the sentinel never lands on offset 0 while records are pending: maybe_write_sentinel reaches
+              write_zero_header only past an edge establishing write_head != 0 or pending_bytes == 0. Appends never
+              wrap over pending records, so "head at 0 with records pending" means the last record ended exactly on the
+              region boundary ((head + size) % region == 0); a sentinel written there zeroes the header of the first
+              record and every scan (which starts at 0) reports an empty log: the acknowledged records are lost.
 Not decided: the exhaustive state-space claim over operation sequences."""
 from . import lib
 from .facts import Place, op_place
@@ -457,8 +462,40 @@ def _open_pending(ctx, F, R='FLOW-C05i'):
                     line=line, sink='EmbeddedWal.pending_bytes', detail='open-pending-not-from-scan')
 
 
+def _sentinel_not_on_live_origin(ctx, F):
+    ctx.rule('GUARD-C05j', 'maybe_write_sentinel writes the sentinel only where write_head != 0 or pending_bytes == 0 (no sentinel over the first record while records are pending)')
+    fn = ctx.need('GUARD-C05j', 'EmbeddedWal::maybe_write_sentinel')
+    if fn is None:
+        return
+    zs = fn.calls_to('EmbeddedWal::write_zero_header')
+    if not zs:
+        ctx.lost('GUARD-C05j', 'maybe_write_sentinel no longer calls write_zero_header')
+        return
+    zero = lambda s_: 0 in s_.const_vals() and not s_.fields and not s_.args
+    cut = set()
+    for c in lib.comparisons(fn):
+        for x, y, flip in ((c.sa(), c.sb(), False), (c.sb(), c.sa(), True)):
+            if not zero(y):
+                continue
+            for tgt, rel in c.edges():
+                r = lib.FLIP[rel] if flip else rel
+                if x.has_field(WAL, 'write_head') and not x.has_field(WAL, 'pending_bytes') and r in ('!=', '>'):
+                    cut.add((c.bb, tgt))
+                if x.has_field(WAL, 'pending_bytes') and not x.has_field(WAL, 'write_head') and r in ('==', '<='):
+                    cut.add((c.bb, tgt))
+    for z in zs:
+        ctx.evaluations += 1
+        if cut and not lib.reachable_without_edges(fn, z.bb, cut):
+            ctx.ok('GUARD-C05j', fn, 'sentinel written only where write_head != 0 or pending_bytes == 0', line=z.line)
+        else:
+            ctx.bad('GUARD-C05j', fn, 'the zero sentinel can be written at offset 0 while records are pending: when an acknowledged record ends exactly on the region boundary the head becomes 0, '
+                    'the sentinel zeroes the header of the first record and every later scan (in this session and after reopen) reports an empty log', line=z.line,
+                    sink='write_zero_header', detail='sentinel-on-origin-while-pending')
+
+
 def run(ctx):
     _sentinel_slot(ctx, ctx.facts())
+    _sentinel_not_on_live_origin(ctx, ctx.facts())
     _open_pending(ctx, ctx.facts())
     _open_sequence(ctx, ctx.facts())
     ctx.rule('GUARD-C05a', 'a ring position becomes 0 only where pending_bytes == 0 is established (edge, dominating store, or every caller)')
